@@ -1,6 +1,6 @@
 (* C07 proofs, part 10: the theorem for everything except ?: and casts. *)
 From Coq Require Import List NArith Bool Arith Lia.
-From CV Require Import Ast.Defs Ast.Basics Ast.Ctx Ast.Stage1 Ast.Main1 Ast.Stage2 Ast.Main2 Ast.NoDecl Ast.Stage3
+From CV Require Import Ast.Defs Ast.Frag Ast.Basics Ast.Ctx Ast.Stage1 Ast.Main1 Ast.Stage2 Ast.Main2 Ast.NoDecl Ast.Stage3
                        Ast.Main3 Ast.Stage4 Ast.Stage5.
 Import ListNotations.
 
@@ -10,16 +10,6 @@ Fixpoint frag4 (e : expr) : bool :=
   | EBin _ _ a b | EAsg _ _ a b | EComma _ a b | ECall _ a b | EIdx _ a b => frag4 a && frag4 b
   | EPar _ a | EPre _ _ a | EPost _ _ a | ECall0 _ a | EMem _ _ a _ => frag4 a
   | ECond _ _ _ _ _ | ECast _ _ _ => false
-  end.
-
-(* everything except casts *)
-Fixpoint frag5 (e : expr) : bool :=
-  match e with
-  | EId _ _ | ENum _ _ => true
-  | EBin _ _ a b | EAsg _ _ a b | EComma _ a b | ECall _ a b | EIdx _ a b => frag5 a && frag5 b
-  | EPar _ a | EPre _ _ a | EPost _ _ a | ECall0 _ a | EMem _ _ a _ => frag5 a
-  | ECond _ _ c a b => frag5 c && frag5 a && frag5 b
-  | ECast _ _ _ => false
   end.
 
 (* the middle operand of ?: is not a comma expression and, if it is an assignment / conditional expression,
